@@ -44,21 +44,30 @@ var (
 	XList = sp("X-list", "list items: continuation, looseness, tabs",
 		"- ", "1. ", "10) ", "\t", " ", "a", "\n", "> ", "+")
 	XNul = sp("X-nul", "NUL padding and replacement",
-		"\x00", "a", "\n", "\r", "[", "]", "(", ")", "`", "é", " ")
+		"\x00", "a", "\n", "\r", "[", "]", "(", ")", "`", "é", " ", "\\")
 	XEol = sp("X-eol", "CR / CRLF / LF paths",
 		"a", "\r", "\n", " ", "\\", "`", ">", "-", "\t")
 	// Inj: attribute-injection alphabet for C07.
 	Inj = sp("Inj", "attribute/markup injection",
-		"\"", "'", "<", ">", "&", "=", " ", "a", "![", "[", "](", ")", "`", "\\", ";", "#", "x", "](/u \"", "\"\t)")
+		"\"", "'", "<", ">", "&", "=", " ", "a", "![", "[", "](", ")", "`", "\\", ";", "#", "x", "](/u \"", "\"\t)", "\xf0", "\xe2")
 	// XEnt: character references in text, alt, title, destination, code, info string.
 	XEnt = sp("X-ent", "character references (valid, invalid, legacy-prefix names) in text and attributes",
-		"&", "#", "x", "1", "a", ";", "G", "amp", "not", "it", "copy", "![", "](/u)", "\"", "`", "\n", "[")
+		"&", "#", "x", "1", "a", ";", "G", "amp", "not", "it", "copy", "![", "](/u)", "\"", "`", "\n", "[", "<b x=\"y\">")
+	// XWs: characters that are white space to Unicode or to Go's unicode.IsSpace but not to CommonMark's blank-line rule.
+	XWs = sp("X-ws", "white space look-alikes: form feed, vertical tab, NEL, NBSP, EM SPACE next to real blank-line characters",
+		"a", " ", "\n", "\t", "\r", "\f", "\v", "\u0085", "\u00a0", "\u2003", ">", "-")
+	// XNest: brackets of links and images nested in each other.
+	XNest = sp("X-nest", "nested link / image brackets",
+		"[", "![", "a", "](u)", "]", " ", "*")
+	// XMlRef: reference links and definitions whose labels span lines, and titles that open at the end of a line.
+	XMlRef = sp("X-mlref", "multi-line labels and titles",
+		"[x][a", "\nb]", "[a\nb]: /u\n", "[a b]", "\n", "> ", "c", "[y](/u \"", "t", "\")", "  ")
 	// Emph5: the five-symbol emphasis alphabet of C11.
 	Emph5 = sp("Emph5", "emphasis: * _ letter space punctuation", "*", "_", "a", " ", ".")
 )
 
 // All lists every declared space (for the start-up self test).
-var All = []Space{B, I, L, XHead, XRef, XLink, XCode, XHTML, XEmph, XList, XNul, XEol, Inj, XEnt, Emph5}
+var All = []Space{B, I, L, XHead, XRef, XLink, XCode, XHTML, XEmph, XList, XNul, XEol, Inj, XEnt, XWs, XNest, XMlRef, Emph5}
 
 // ByName finds a space.
 func ByName(name string) (Space, bool) {
